@@ -11,6 +11,7 @@
 //verif:replace github.com/celestiaorg/celestia-node/share.EmptyEDSDataHash github.com/celestiaorg/celestia-node/store.verifEmptyHash
 //verif:replace github.com/celestiaorg/celestia-node/share.EmptyEDSRoots github.com/celestiaorg/celestia-node/store.verifEmptyRoots
 //verif:replace github.com/celestiaorg/celestia-node/share.EmptyEDS github.com/celestiaorg/celestia-node/store.verifEmptyEDS
+//verif:replace github.com/celestiaorg/celestia-node/share.NewAxisRoots github.com/celestiaorg/celestia-node/store.verifNewAxisRoots
 //verif:bound crash during a store operation: one block (ODS width 2; 2 or 4 filled shares) or the empty block; operation = PutODSQ4, PutODS, put of the empty block, RemoveODSQ4 or RemoveQ4 after a complete put; the process dies before ANY one of the first 8 file-system mutations of the operation (file creation, each write, link, each removal) - the crashing write may be torn (half of its bytes persisted) - or not at all; ODS and Q4 files are written by two goroutines in either order (1 scheduling deviation); then restart (NewStore on the same directory), lookup, re-put, re-remove
 //verif:assume file system = package veriffs model; a crash keeps exactly the mutations that completed before it (no reordering of completed writes by the OS: fsync semantics are outside the model - the store itself never calls Sync)
 //verif:outside squares needing several buffered writes (64 KiB buffer: ODS width >= 16), loss of completed-but-unsynced writes on power failure, recent-block cache > 0
@@ -47,6 +48,17 @@ func verifHashOfTag(tag byte) []byte {
 func verifEmptyHash() share.DataHash               { return verifHashOfTag(0xEE) }
 func verifEmptyRoots() *share.AxisRoots            { return verifEmptyRootsV }
 func verifEmptyEDS() *rsmt2d.ExtendedDataSquare { return verifEmptySq }
+
+// roots of an in-memory square (the in-memory accessor recomputes them): the
+// roots the harness committed for that square
+var verifRootsOf map[*rsmt2d.ExtendedDataSquare]*share.AxisRoots
+
+func verifNewAxisRoots(e *rsmt2d.ExtendedDataSquare) (*share.AxisRoots, error) {
+	if r, ok := verifRootsOf[e]; ok {
+		return r, nil
+	}
+	return nil, errors.New("model: roots of an unknown square")
+}
 
 func verifTaggedRoots(tag byte, width int) *share.AxisRoots {
 	r := &share.AxisRoots{}
@@ -119,6 +131,7 @@ func verifSetup() {
 	file.VerifHashOf = func(d *da.DataAvailabilityHeader) []byte { return verifHashOfTag(d.RowRoots[0][0]) }
 	verifEmptyCells, verifEmptySq = shwap.VerifModelSquare(1, 0, libshare.TailPaddingNamespace)
 	verifEmptyRootsV = verifTaggedRoots(0xEE, 2)
+	verifRootsOf = map[*rsmt2d.ExtendedDataSquare]*share.AxisRoots{verifEmptySq: verifEmptyRootsV}
 	eds.EmptyAccessor = &eds.Rsmt2D{ExtendedDataSquare: verifEmptySq}
 }
 
@@ -135,6 +148,7 @@ func VerifH_C07_CrashNeverLeavesAReadableButWrongBlock() {
 	filled := 2 * (1 + nd.Choice(2, "filled")) // 2 or 4 filled shares
 	cells, sq := shwap.VerifModelSquare(k, filled, ns)
 	roots := verifTaggedRoots(tag, 2*k)
+	verifRootsOf[sq] = roots
 	hash := share.DataHash(verifHashOfTag(tag))
 	params := &Parameters{RecentBlocksCacheSize: 0}
 
@@ -220,7 +234,7 @@ func VerifH_C07_CrashNeverLeavesAReadableButWrongBlock() {
 		q4, qerr := st2.HasQ4ByHash(ctx, hash)
 		nd.Assert(qerr == nil && q4, "re-put-restores-the-parity-file")
 		nd.Assert(file.ValidateODSQ4Size("/s/blocks/"+hash.String()+".ods", "/s/blocks/"+hash.String()+".q4", sq) == nil, "re-put-files-are-complete")
-		veriffs.Reboot()
+		nd.Assert(veriffs.OpenHandles() == 0, "no-file-is-left-open")
 	}
 
 	// ---- and removing it again works
